@@ -316,7 +316,7 @@ pub fn post(v: &Variant, out: &RunOutput) -> (Vec<Violation>, Vec<(String, u64)>
         r.shuffle(&mut ix);
         targets.extend(ix.into_iter().take(n));
     }
-    let max_points = if thorough { 4000 } else { 60 };
+    let max_points = if thorough { 1200 } else { 60 };
     let mut points = 0usize;
     let mut seen_classes: BTreeSet<String> = BTreeSet::new();
     'outer: for ti in targets {
@@ -430,8 +430,8 @@ pub fn spec() -> CheckSpec {
         level: "fault_enumeration",
         rule: "seeded short histories on SQLite nodes; for one (thorough: up to three) sampled call of every operation kind occurring in the history (create_group, create_message, process_message on application / proposal / commit / commit-with-rollback / refused, merge_pending_commit, process_welcome, accept_welcome, self_update, add/remove/update, constructor) the storage tick indices k of that call are enumerated (quick: first, last and a seeded sample of 8; thorough: every k): the history is re-executed to the call, the process dies at tick k (directory image incl. hot journal), the node reopens from the image, the call is issued again where the application would do so, the rest of the history and the quiescence phase run; oracles: the database opens, every group loads, end state equals the uninterrupted run; a case = (history, call, k); non-trivial = crash landed after the first write of a multi-statement call (k >= 2); distinct = (operation kind, tick label, k) tuples",
         variants: vec![
-            Variant { name: "sqlite", profile: base.clone(), runs_quick: 32, runs_thorough: 400, oracle: mk, guarded: false, configure_gen: None, post: Some(post), custom: None },
-            Variant { name: "sqlcipher", profile: Profile { backend: BackendMix::SqliteCipher, ..base.clone() }, runs_quick: 16, runs_thorough: 200, oracle: mk, guarded: false, configure_gen: None, post: Some(post), custom: None },
+            Variant { name: "sqlite", profile: base.clone(), runs_quick: 32, runs_thorough: 60, oracle: mk, guarded: false, configure_gen: None, post: Some(post), custom: None },
+            Variant { name: "sqlcipher", profile: Profile { backend: BackendMix::SqliteCipher, ..base.clone() }, runs_quick: 16, runs_thorough: 30, oracle: mk, guarded: false, configure_gen: None, post: Some(post), custom: None },
         ],
         assumptions: vec!["process death, not power loss: everything SQLite had handed to the OS survives (torn/lost pages are SQLite's durability contract)", "one crash per execution", "the application repeats the interrupted call after the restart"],
         real: super::REAL.to_vec(),
